@@ -85,7 +85,7 @@ def fams(*fs):
 
 
 # ------------------------------------------------------------------------------------------- model checking
-INV_REPAIRED = ["ResultOK", "Bounded", "AtMostOnce", "ExactlyOnce", "ExactlyOnceAtReturn", "LeakFree"]
+INV_REPAIRED = ["ResultOK", "OrderOK", "Bounded", "AtMostOnce", "ExactlyOnce", "ExactlyOnceAtReturn", "LeakFree"]
 
 NOCAUSE = dict(MBSet='{"w0","w1","w2"}', RStopSet="{-1,1}", RWSet="0..2", REndSet='{"ret"}', GenKSet="{-1}", CtxSet='{"bg"}')
 CAUSES = dict(MBSet='{"w1","cancelE","cancelNil","panic"}', RStopSet="{-1,0}", RWSet="0..1",
@@ -176,7 +176,8 @@ def mc(ctx):
 
 # ------------------------------------------------------------------------------------------- scenario generation
 def gen(ctx, name, families):
-    K = dict(Fams=families)
+    # + the directed scenarios (ordering established by the driver before the reducer writes), see MRContract!Directed
+    K = dict(Fams=families, Orders='{"cancel-before-write","ctx-before-write"}')
     cfg = core.render_cfg(spec="GSpec", constants=K, invariants=["Emit", "SaneInv"])
     r = ctx.tlc("MRContractGen", cfg, constants=K, name=name, workers=4, timeout=900)
     return r.printed
@@ -230,7 +231,7 @@ def run(ctx):
     # recording pass (code -> spec): a sample of the scenarios is executed once more with the user functions logging
     # their events; TLC validates every recorded history against the contract-level acceptor spec/MRTrace.tla
     step = 7 if ctx.quick else 5
-    sample = [c for i, c in enumerate(cases) if i % step == 0 and '"n":100' not in c]
+    sample = [c for i, c in enumerate(cases) if (i % step == 0 or '"order":""' not in c) and '"n":100' not in c]
     spath, _ = ctx.write_cases("cases-trace.ndjson", sample)
     tpath = os.path.join(ctx.build, "trace.ndjson")
     _, tbad = ctx.replay(PKG, OVERLAY, RUN, spath, label="rec", shards=1, binp=binp, gomaxprocs=4, timeout=900,
